@@ -145,6 +145,10 @@ func staticRType(p *pwPath, t ssa.Value) types.Type {
 		}
 	}
 	if operand == nil {
+		// reflect.TypeOf((*T)(nil)).Elem(), or a parameterless helper of the module that names a type (typeOf[T]())
+		if c, isCall := t.(*ssa.Call); isCall {
+			return staticRTypeOf(c)
+		}
 		return nil
 	}
 	if mi, ok := p.resolve(operand).(*ssa.MakeInterface); ok && !types.IsInterface(mi.X.Type()) {
@@ -226,7 +230,15 @@ func (cm *callModel) justify(p *pwPath, val ssa.Value, app *ssa.Call) (how strin
 			// T.ConvertibleTo(TypeOf(map[string]interface{}{})) -> ValueOf(map[string]interface{}{})
 			if va, isVO := reflectFunc(val, "ValueOf"); isVO && len(va) == 1 {
 				if mm, isMM := p.resolve(stripIface(p.resolve(va[0]))).(*ssa.MakeMap); isMM {
+					sameType := false
 					if ta, isTO := reflectFunc(args[0], "TypeOf"); isTO && len(ta) == 1 && types.Identical(stripIface(p.resolve(ta[0])).Type(), mm.Type()) {
+						sameType = true
+					}
+					// the map type kept in a package variable (optionsMapType = typeOf[map[string]any]())
+					if st := staticRType(p, args[0]); st != nil && types.Identical(st, mm.Type()) {
+						sameType = true
+					}
+					if sameType {
 						if _, unnamed := mm.Type().(*types.Map); unnamed {
 							return "frozen exception: a value of the UNNAMED type map[string]interface{} is assignable to every type convertible to it (identical underlying type, one side unnamed)", recv
 						}
